@@ -323,6 +323,32 @@ def check_default_product(w, rep):
                     "matrix handed to from_Matrix is not to_Matrix(left) @ to_Matrix(right) (order, transpose or element-wise product)")
 
 
+def check_mrp_product(w, rep, tier, rule="C01.hom"):
+    """SO3Mrp.product is rational of high degree once pushed through to_Matrix; the quick tier compares it, as canonical
+    value numbers, with the composition formula of the MRP (Schaub & Junkins eq. 3.152, for T(left) T(right))
+        ((1 - |a|^2) b + (1 - |b|^2) a - 2 b x a) / (1 + |a|^2 |b|^2 - 2 a.b),
+    and the thorough tier decides T(XY) = T(X) T(Y) itself (about half a minute per cell), which is what makes the
+    formula the right reference.  SE3Mrp / SE23Mrp reach it through the semidirect rule (C01.semidirect)."""
+    G = w.G("SO3Mrp")
+    X, a = w.fresh(G, "X")
+    Y, b = w.fresh(G, "Y")
+    W = w.method_where(G, "product")[:2]
+    ok, P = guarded(w, rep, rule, "SO3Mrp.product", lambda: w.call(G, "product", X, Y))
+    if not ok:
+        return
+    na, nb, ab = cm.sumsqr(a).s(), cm.sumsqr(b).s(), cm.dot(a, b).s()
+    den = cm.ONE + na * nb - ab.scale(2)
+    cr = cm.cross(b, a)
+    want = MatVal(3, 1, [[cm.pdiv((cm.ONE - na) * b.cells[i][0] + (cm.ONE - nb) * a.cells[i][0] - cr.cells[i][0].scale(2), den)] for i in range(3)], "SX")
+    verdict(rep, rule, "SO3Mrp.product(a, b) = ((1-|a|^2) b + (1-|b|^2) a - 2 b x a) / (1 + |a|^2 |b|^2 - 2 a.b)", w.param(P), want, (), W,
+            "MRP product is not the composition formula of the modified Rodrigues parameters, so to_Matrix(X*Y) is not to_Matrix(X) to_Matrix(Y)")
+    if tier == "thorough":
+        TP, TX, TY = w.call(P, "to_Matrix"), w.call(X, "to_Matrix"), w.call(Y, "to_Matrix")
+        with with_maxdeg(30):
+            verdict(rep, rule, "SO3Mrp T(XY) = T(X) T(Y) decided on all nine cells (lemma behind the composition formula)", TP, cm.matmul(TX, TY), (), W,
+                    "matrix of the MRP product vs product of the matrices")
+
+
 def check_direct_product(w, rep, factors, label, prebuilt=None):
     """D4 (direct products): slices partition the parameter vector, every operation is applied factor-wise to its own
     slice, the matrix is block diagonal in factor order."""
@@ -414,6 +440,7 @@ def run(w, rep, tier):
     for nm, G in groups:
         check_group(w, rep, nm, G, tier)
     check_quaternion_tables(w, rep)
+    check_mrp_product(w, rep, tier)
     from .c07 import check_from_matrix
     check_from_matrix(w, rep, R="C01.right-inverse", RV="C01.right-inverse", RS="C01.right-inverse")
     # SO3Mrp.from_Matrix (and SE3Mrp / SE23Mrp through it) is routed Dcm -> Quat -> Mrp (C07.flow): its right-inverse
